@@ -417,6 +417,9 @@ Definition flag (n : N) (fl : N) : bool := N.testbit fl n.
 Definition site_own_acao (s : option site) : bool := match s with Some st => flag 1 (st_flags st) | None => false end.
 Definition site_filter_all (s : option site) : bool := match s with Some st => flag 0 (st_flags st) | None => false end.
 Definition site_marks (s : option site) : bool := match s with Some st => flag 2 (st_flags st) | None => false end.
+(** the port is secure (flag 8; with flag 16 the client speaks HTTP/2): the scheme of the request URI is "https" *)
+Definition site_scheme (s : option site) : bytes :=
+  if (match s with Some st => flag 3 (st_flags st) | None => false end) then B "https" else B "http".
 Fixpoint find_fn (p : bytes) (fns : list (bytes * N)) (i : nat) : option (nat * N) :=
   match fns with
   | [] => None
@@ -815,7 +818,7 @@ Definition run_conn_with (v : version) (force_nocache : bool) (x : xval) : xval 
           match build_hist parse_uri rs with
           | Ok hist =>
               let cfg := mkCfgC (base =? 0) wc' (rs_build rs_add hist) hs (ca' && negb force_nocache) in
-              XL [XN 0; XL (map x_wire (run_conn parse_uri (v_ipo v) (v_norm v) (v_keep v) (v_denied v) (site_filter st) CONN_SCHEME cfg
+              XL [XN 0; XL (map x_wire (run_conn parse_uri (v_ipo v) (v_norm v) (v_keep v) (v_denied v) (site_filter st) (site_scheme st) cfg
                                                  (site_app hs st) (site_marks st) ([], tt) 0 ops'))]
           | _ => XL [XN 96]
           end
@@ -851,8 +854,8 @@ Definition is_preflight (r : request) : bool :=
 Definition spec_one (hist : list (bytes * allow_list)) (with_cors : bool) (cfg : ccfg) (st : option site) (r : request) : xval :=
   let lookup := if with_cors then resolve hist else (fun _ => None) in
   let auth := match header H_HOST r with Some a => a | None => [] end in
-  let v := cors_spec2 resolved_path parse_uri lookup (rq_method r) CONN_SCHEME auth (rq_path r) (header H_ORIGIN r) in
-  let plain := snd (respond parse_uri is_part_of_origin resolved_path true SP_NONE default_filter CONN_SCHEME
+  let v := cors_spec2 resolved_path parse_uri lookup (rq_method r) (site_scheme st) auth (rq_path r) (header H_ORIGIN r) in
+  let plain := snd (respond parse_uri is_part_of_origin resolved_path true SP_NONE default_filter (site_scheme st)
                       (mkCfgC (cc_new cfg) (cc_with_cors cfg) (cc_rules cfg) (cc_handlers cfg) false)
                       (site_app (cc_handlers cfg) st) ([], tt) 0 (strip_origin r)) in
   let acao := match header H_ORIGIN r with Some o => if with_cors then [XL [XB H_ACAO; XB o]] else [] | None => [] end in
